@@ -1,21 +1,52 @@
-import Sucds.Proofs.Serial
-import Sucds.Proofs.IoSchedule
-/-! # C13 — truncated streams and failing I/O yield Err (partial)
+import Sucds.Proofs.SerialStruct
+import Sucds.Proofs.IoWrite
+/-! # C13 — truncated streams and failing I/O yield Err, never a panic or a bogus value
 
-Proved: `Good.pre` — decoding any strict prefix of an encoding fails — for the combinators and the
-`BitVector` codec; `read_exact` over *any* schedule of short reads and `Interrupted` results returns
-exactly the bytes one uninterrupted read returns, or fails when the stream is too short
-(`readExact_spec`). The `std` loops themselves are modelled, not verified. -/
+* every strict prefix of the serialization of a well-formed value fails to decode — for every structure
+  codec (`prefix_fails`, from `Codec.Good.pre`; the model decoder is total, so "never a panic");
+* `read_exact` over *any* schedule of short reads and `Interrupted` results returns exactly what one
+  uninterrupted read returns, or fails when the stream is too short (`read_exact_schedule_independent`);
+* `write_all` to a writer that accepts bytes in arbitrary pieces, reports `Interrupted` at arbitrary points
+  and fails for good after `limit` bytes succeeds iff everything fits, having written exactly the buffer,
+  and otherwise fails having written exactly the first `limit` bytes (`write_all_schedule_independent`).
+The two `std` loops are modelled from their documentation (trusted); that the crate performs all its I/O
+through them and propagates every error is what the correspondence checks on the real code, at every
+truncation offset and every write-failure offset of the generated instances. -/
 namespace Sucds.C13
 open Sucds Sucds.Codec Sucds.Io
 
-theorem bit_vector_prefix_fails (b : BV) (k : Nat)
-    (hv : b.words.size < 256^8 ∧ (∀ w ∈ b.words.toList, w < 256^8) ∧ b.len < 256^8) (hk : k < (BV.codec.put b).length) :
-    BV.codec.get ((BV.codec.put b).take k) = none := BV.codec_good.pre b k hv hk
+def Statement : Prop :=
+  (∀ (b : BV) k, BV.Wf b → k < BV.codec.size b → BV.codec.get ((BV.codec.put b).take k) = none) ∧
+  (∀ (x : CV) k, CV.Wf x → k < CV.codec.size x → CV.codec.get ((CV.codec.put x).take k) = none) ∧
+  (∀ (x : R9) k, R9.Wf x → k < R9.codec.size x → R9.codec.get ((R9.codec.put x).take k) = none) ∧
+  (∀ (x : DA) k, DA.Wf x → k < DA.codec.size x → DA.codec.get ((DA.codec.put x).take k) = none) ∧
+  (∀ (x : SA) k, SA.Wf x → k < SA.codec.size x → SA.codec.get ((SA.codec.put x).take k) = none) ∧
+  (∀ (x : EF) k, EF.Wf x → k < EF.codec.size x → EF.codec.get ((EF.codec.put x).take k) = none) ∧
+  (∀ (x : DacB) k, DacB.Wf x → k < DacB.codec.size x → DacB.codec.get ((DacB.codec.put x).take k) = none) ∧
+  (∀ (x : DacO) k, DacO.Wf x → k < DacO.codec.size x → DacO.codec.get ((DacO.codec.put x).take k) = none) ∧
+  (∀ (x : PS) k, PS.Wf x → k < PS.codec.size x → PS.codec.get ((PS.codec.put x).take k) = none) ∧
+  (∀ bk (x : WM) k, WM.Wf bk x → k < (WM.codec bk).size x → (WM.codec bk).get (((WM.codec bk).put x).take k) = none) ∧
+  -- read_exact: the outcome depends only on the data, not on the schedule
+  (∀ (fuel : Nat) (data : List Nat) (sched : List Ev) (want : Nat), sched.length + want < fuel →
+    (want ≤ data.length → ∃ s', readExact ⟨data, sched⟩ want fuel = (some (data.take want), ⟨data.drop want, s'⟩)) ∧
+    (data.length < want → ∃ r', readExact ⟨data, sched⟩ want fuel = (none, r'))) ∧
+  -- write_all: success iff everything fits below the failure point; the bytes written are a prefix either way
+  (∀ (fuel : Nat) (out : List Nat) (limit : Nat) (sched : List Ev) (buf : List Nat),
+    sched.length + buf.length < fuel → out.length ≤ limit →
+    (out.length + buf.length ≤ limit → ∃ s', writeAll ⟨out, limit, sched⟩ buf fuel = (true, ⟨out ++ buf, limit, s'⟩)) ∧
+    (limit < out.length + buf.length →
+      ∃ s', writeAll ⟨out, limit, sched⟩ buf fuel = (false, ⟨out ++ buf.take (limit - out.length), limit, s'⟩)))
 
-theorem read_exact_schedule_independent : ∀ (fuel : Nat) (data : List Nat) (sched : List Ev) (want : Nat),
-    sched.length + want < fuel →
-    (want ≤ data.length →
-      ∃ s', readExact ⟨data, sched⟩ want fuel = (some (data.take want), ⟨data.drop want, s'⟩)) ∧
-    (data.length < want → ∃ r', readExact ⟨data, sched⟩ want fuel = (none, r')) := readExact_spec
+theorem holds : Statement :=
+  ⟨fun x k h hk => Good.strict_prefix_fails BV.codec_wf_good x h k hk,
+   fun x k h hk => Good.strict_prefix_fails CV.codec_good x h k hk,
+   fun x k h hk => Good.strict_prefix_fails R9.codec_good x h k hk,
+   fun x k h hk => Good.strict_prefix_fails DA.codec_good x h k hk,
+   fun x k h hk => Good.strict_prefix_fails SA.codec_good x h k hk,
+   fun x k h hk => Good.strict_prefix_fails EF.codec_good x h k hk,
+   fun x k h hk => Good.strict_prefix_fails DacB.codec_good x h k hk,
+   fun x k h hk => Good.strict_prefix_fails DacO.codec_good x h k hk,
+   fun x k h hk => Good.strict_prefix_fails PS.codec_good x h k hk,
+   fun bk x k h hk => Good.strict_prefix_fails (WM.codec_good bk) x h k hk,
+   readExact_spec, writeAll_spec⟩
 end Sucds.C13
